@@ -82,3 +82,35 @@ Proof.
   destruct hypotheses_hold as [Hd [Hn Hp]].
   exact (exec_total ex_schema ex_doc ex_env ex_fuel Hn Hp ex_fuel Hd ex_W).
 Qed.
+
+(** stage B: the hypothesis [dirs_evaluable] holds of the example (and fails without a value for $v) *)
+Example dirs_evaluable_holds : dirs_evaluable ex_doc ex_env = true /\ dirs_evaluable ex_doc [] = false.
+Proof. vm_compute. split; reflexivity. Qed.
+
+(** stage B: several operations.  query A {...ex_doc...}  query B { __typename } *)
+Definition ex_opA : operation :=
+  {| o_name := Some (nm "A"); o_kind := OpQuery; o_pos := at_ 1 1; o_sels := op_sels ex_doc |}.
+Definition ex_opB : operation :=
+  {| o_name := Some (nm "B"); o_kind := OpQuery; o_pos := at_ 7 1;
+     o_sels := [SField None n_typename (at_ 7 11) [] []] |}.
+Definition ex_request : request_doc := {| r_ops := [ex_opA; ex_opB]; r_frags := frags ex_doc |}.
+
+Example request_selects :
+  s_get_operation ex_request (opname_of (nm "A")) = Some ex_opA /\
+  get_operation ex_request (nm "B") = GOp ex_opB /\
+  s_get_operation ex_request (opname_of []) = None /\
+  run_request fixed ex_schema ex_request [] ex_env ex_fuel ex_W = Done None [ {| e_path := []; e_locs := [at_ 7 1] |} ] /\
+  run_request fixed ex_schema ex_request (nm "C") ex_env ex_fuel ex_W = Done None [ {| e_path := []; e_locs := [] |} ] /\
+  run_request fixed ex_schema ex_request (nm "A") ex_env ex_fuel ex_W = run fixed ex_schema ex_doc ex_env ex_fuel ex_W.
+Proof. vm_compute. repeat split; reflexivity. Qed.
+
+(** stage B: the recursive key-order predicate is inhabited by the example's data *)
+From ApiFu Require Import Exe.ExecKeyOrder Exe.ExecKeyOrderProofs.
+Example instance_ordered :
+  exists kvs, ordered_obj ex_schema ex_doc ex_env ex_fuel (nm "Q") (op_sels ex_doc) kvs /\ List.length kvs = 5%nat.
+Proof.
+  destruct hypotheses_hold as [Hd [Hn Hp]].
+  destruct (exec_data_ordered ex_schema ex_doc ex_env ex_fuel ex_fuel ex_W _ _ Hn Hp Hd response) as [rt [kvs [Hrt [Hj Ho]]]].
+  vm_compute in Hrt. inversion Hrt; subst rt. inversion Hj; subst kvs.
+  eexists. split; [exact Ho|reflexivity].
+Qed.
